@@ -51,7 +51,9 @@ def load(tier, repo=None):
         for need in ("stylua_lib", "stylua"):
             if need not in p.crates:
                 raise SystemExit(f"[extract] config {c}: crate {need} missing from facts (fail closed)")
-    return Ctx(tier, configs, programs, th)
+    c = Ctx(tier, configs, programs, th)
+    c.repo = repo or extract.REPO
+    return c
 
 
 def main():
